@@ -400,9 +400,20 @@ func (c *xprogCase) order() []int {
 func (c *xprogCase) job() (rJob, int) {
 	job := rJob{Sources: []map[string]string{c.sources(0)}}
 	for _, f := range c.order() {
-		job.Queries = append(job.Queries, rQuery{0, fmt.Sprintf("F%d", f)})
+		job.Queries = append(job.Queries, rQuery{Pkg: 0, Func: fmt.Sprintf("F%d", f)})
 	}
-	return job, len(job.Queries)
+	n := len(job.Queries)
+	if c.hasLib() && n > 0 {
+		// then the functions of the package the asked ones call into, and the same questions once more: what the
+		// resolver says about a function does not depend on what it was asked before
+		for f, fn := range c.Fs {
+			if fn.Lib && !fn.Lit {
+				job.Queries = append(job.Queries, rQuery{Pkg: 0, Func: fmt.Sprintf("H%d", f), Sub: "lib"})
+			}
+		}
+		job.Queries = append(job.Queries, job.Queries[:n]...)
+	}
+	return job, n
 }
 
 func joinAnswers(ans []rAnswer) (out, orc string) {
@@ -419,8 +430,20 @@ func joinAnswers(ans []rAnswer) (out, orc string) {
 func (c *xprogCase) Run() string {
 	if !c.have {
 		job, n := c.job()
-		ans := superviseJob(job, n, 8*time.Second)
-		c.out, c.orc = joinAnswers(ans)
+		ans := superviseJob(job, len(job.Queries), 8*time.Second)
+		first := ans
+		if len(ans) >= n {
+			first = ans[:n]
+		}
+		c.out, c.orc = joinAnswers(first)
+		if c.orc == "" && len(job.Queries) > n && len(ans) == len(job.Queries) {
+			for i := 0; i < n; i++ {
+				if again := ans[len(ans)-n+i]; again.Out != ans[i].Out {
+					c.orc = fmt.Sprintf("ResultsOf(%s) answered %s, and %s once the functions of the package it calls into had been asked about", job.Queries[i].Func, ans[i].Out, again.Out)
+					break
+				}
+			}
+		}
 		c.have = true
 	}
 	return c.out
@@ -1047,7 +1070,7 @@ func xprogBatch(cases []Case) []string {
 				job.Sources = append(job.Sources, pc.sources(i))
 				from = append(from, len(job.Queries))
 				for _, f := range pc.order() {
-					job.Queries = append(job.Queries, rQuery{i, fmt.Sprintf("F%d", f)})
+					job.Queries = append(job.Queries, rQuery{Pkg: i, Func: fmt.Sprintf("F%d", f)})
 				}
 			}
 			from = append(from, len(job.Queries))
